@@ -186,6 +186,13 @@ func (g *SessionManager) selectSession(msg interface{}) getty.Session {
 
 func (g *SessionManager) getXid(msg interface{}) string {
 	var xid string
+	// the request itself, not the frame it travels in (SendSync/SendAsync hand over the RpcMessage)
+	if rpcMessage, ok := msg.(message.RpcMessage); ok {
+		msg = rpcMessage.Body
+	}
+	if msg == nil {
+		return xid
+	}
 	if tmpMsg, ok := msg.(message.AbstractGlobalEndRequest); ok {
 		xid = tmpMsg.Xid
 	} else if tmpMsg, ok := msg.(message.GlobalBeginRequest); ok {
@@ -200,7 +207,12 @@ func (g *SessionManager) getXid(msg interface{}) string {
 		if msgType.Kind() == reflect.Ptr {
 			msgValue = msgValue.Elem()
 		}
-		xid = msgValue.FieldByName("Xid").String()
+		// messages without an xid (registration, heart-beat) have no such field
+		if msgValue.Kind() == reflect.Struct {
+			if field := msgValue.FieldByName("Xid"); field.IsValid() && field.Kind() == reflect.String {
+				xid = field.String()
+			}
+		}
 	}
 	return xid
 }
